@@ -157,6 +157,10 @@ def jobs(tier):
             if "PILL" not in key:
                 js.append(_job("seq.paused.%s" % tag, "REG(S) REGF(X) NOEVAL(X) REG(Y) START(S) START(Y) " + BOTH + "LOOP PAUSE(S) " +
                                " ".join(seq) + " RESUME(S)" + END, SYMF))
+    for n in ((1,) if tier == "quick" else (1, 2)):
+        js.append(l2_job("C19.tick.restart%d" % n, "l2/c19_tickrestart.c", defines={"RESTARTS": n, "VF_LOGN": 8},
+                         symbolic=["quit code (uint8)", "errno left by callbacks (int)"],
+                         bounds="tick configured, loop stopped and restarted %d time(s), one expiry per run" % n, unwind=13))
     return js
 
 
